@@ -1,7 +1,7 @@
 """C06 - scoring and least-squares refinement kernels match their mathematical definition."""
 import numpy as np
 from hypothesis import strategies as st
-from vf import gens
+from vf import gens, oracles
 from vf.runner import hyp_run, run_cases, guard, fail, exc_failure
 
 THOROUGH_SCALE = 8      # multiplies every generated-case budget of the thorough tier
@@ -10,7 +10,7 @@ RULE = ("UBI = inv(U.B(cell)) for 7 cell families, right- and left-handed, optio
         "and |d_i| < 0.5 at noise levels 1e-6..0.45 x tol in (0,0.5] x label arrays x degenerate selections (empty, "
         "all l=0, collinear, <3 peaks); oracle = float64 numpy reference written from the statement with an "
         "interval rule at the tolerance boundary; non-trivial = peaks on both sides of the tolerance, or n>4096, or "
-        "a singular selection; the library's Python routes (indexing.refine, calc_drlv2, indexer.score/refine on ring-assigned peaks, refinegrains.refine) are compared with the same reference; distinct = hash of the case")
+        "a singular selection; the library's Python routes (indexing.refine, calc_drlv2, indexer.score/refine on ring-assigned peaks, refinegrains.refine with and without a lattice constraint - cubic, tetragonal, orthorhombic, hexagonal, trigonalP, monoclinic_b - applied after each pass) are compared with the same reference; distinct = hash of the case")
 ASSUMPTIONS = ["a peak whose squared error lies within its rounding uncertainty u=4e-13(1+|h|)(sqrt(e)+1e-13(1+|h|)) of "
                "tol^2 may be counted either way; least-squares results are compared only when no such peak exists",
                "fit tolerance |UBI_c.UB_ref - I| < 1e-9*cond(H) + 1e-11",
@@ -108,6 +108,27 @@ def lsq(gv, hi, sel):
 def fit_close(ubi_c, UBref, cond):
     err = np.abs(ubi_c @ UBref - np.eye(3)).max()
     return err <= 1e-9 * cond + 1e-11, err
+
+
+SYMFUN = {
+    "cubic": lambda a, b, c, al, be, ga: [(a + b + c) / 3.0] * 3 + [90.0, 90.0, 90.0],
+    "tetragonal": lambda a, b, c, al, be, ga: [(a + b) / 2.0, (a + b) / 2.0, c, 90.0, 90.0, 90.0],
+    "orthorhombic": lambda a, b, c, al, be, ga: [a, b, c, 90.0, 90.0, 90.0],
+    "hexagonal": lambda a, b, c, al, be, ga: [(a + b) / 2.0, (a + b) / 2.0, c, 90.0, 90.0, 120.0],
+    "trigonalP": lambda a, b, c, al, be, ga: [(a + b + c) / 3.0] * 3 + [(al + be + ga) / 3.0] * 3,
+    "monoclinic_b": lambda a, b, c, al, be, ga: [a, b, c, 90.0, be, 90.0],
+}
+
+
+def symmetrise(ubi, name):
+    """The documented constraint step of refinegrains.refine, written independently: keep the orientation U of the
+    fitted matrix (UB = U.B with B upper triangular, positive diagonal), replace the cell by its symmetrised version."""
+    UB = np.linalg.inv(ubi)
+    Q, R = np.linalg.qr(UB)
+    sg = np.sign(np.diag(R))
+    Q = Q * sg[None, :]
+    cp = oracles.cellpars_from_ubi(ubi)
+    return np.linalg.inv(Q @ gens.busing_levy_B(SYMFUN[name](*cp)))
 
 
 def check(case, rec=None):
@@ -237,6 +258,43 @@ def check(case, rec=None):
                                                       (rg.npks, int(s1.sum()), where), fn="refinegrains.refine"))
                 else:
                     fails.append(exc_failure("refinegrains.refine", m2))
+            # the same with a lattice constraint applied after each of the two passes
+            symname = sorted(SYMFUN)[case["seed"] % len(SYMFUN)]
+            if not case["left"]:
+                with contextlib.redirect_stdout(io.StringIO()):
+                    ok, rg = guard(refinegrains.refinegrains, tolerance=tol, OmFloat=False,
+                                   latticesymmetry=getattr(refinegrains, symname))
+                r1, UB1, c1, sg1 = lsq(gv, hi, sure)
+                if ok and not sg1 and c1 < 1e6 and np.linalg.det(r1) <= 0:
+                    if rec is not None:
+                        rec.exclude("lattice-constrained refine: the unconstrained fit is left handed (noise): xfab "
+                                    "refuses it with a ValueError")
+                elif ok and not sg1 and c1 < 1e6:
+                    rg.gv = gv
+                    r1s = symmetrise(r1, symname)
+                    e1, h1, s1, a1, half1 = reference(np.ascontiguousarray(r1s), gv, tol)
+                    if not a1.any() and s1.any():
+                        r2, UB2, c2, sg2 = lsq(gv, h1, s1)
+                        if not sg2 and c2 < 1e6 and np.linalg.det(r2) > 0:
+                            r2s = symmetrise(r2, symname)
+                            ok, m3 = guard(rg.refine, ubi.copy())
+                            if not ok:
+                                fails.append(exc_failure("refinegrains.refine(latticesymmetry=%s)" % symname, m3))
+                            else:
+                                good, err = fit_close(np.asarray(m3, float), np.linalg.inv(r2s), max(c1, c2))
+                                if not good:
+                                    fails.append(fail("fit", "refinegrains.refine(latticesymmetry=%s) differs from two "
+                                                      "least squares passes each followed by the cell constraint: %.3g "
+                                                      "(cond %.3g); %s" % (symname, err, max(c1, c2), where),
+                                                      fn="refinegrains.refine/sym"))
+                                if rg.npks != int(s1.sum()) or \
+                                        abs(rg.avg_drlv2 - e1[s1].mean()) > 1e-9 * (1 + e1[s1].mean()) + 1e-12:
+                                    fails.append(fail("count", "refinegrains.refine(latticesymmetry=%s): npks %s, mean "
+                                                      "squared error %r; the matrix entering the second pass indexes %d "
+                                                      "with %r; %s" % (symname, rg.npks, rg.avg_drlv2, int(s1.sum()),
+                                                                       e1[s1].mean(), where), fn="refinegrains.refine/sym"))
+                            if rec is not None:
+                                rec.note("refine_with_lattice_constraint_cases", 1, "sum")
     # ---- refine_assigned for every label (selection by label only)
     for lab in range(0, case["nlabel"] + 2):
         sel = labels == lab
